@@ -169,6 +169,8 @@ def coq_rewrite(desc):
         return "RWrap %s %s" % (f[1], f[2])
     if k == "adddecl":
         return "RAddDecl %s %s %s" % (f[1], f[2], f[3])
+    if k == "addlocal":
+        return "RAddLocal %s %s %s %s" % (f[1], f[2], f[3], f[4])
     raise ValueError(desc)
 
 
@@ -393,7 +395,9 @@ def main(tier, replay=None):
                  "generic packages with instances, configurations; use clauses `all`/item-wise/selected names chosen at "
                  "random; each program also in 2 variants rewritten by up to 3 composed rewrites (swap independent "
                  "declarations, positional<->named association, selected names, item-wise use, wrap in block, add unused "
-                 "declaration).  non-trivial = at least 4 design units; distinct by (request, rewrites, size)" % CH_LEN),
+                 "declaration); every second variant starts with the nesting plan: a concurrent statement wrapped into two "
+                 "nested blocks and a declaration overloading a designator of an enclosing region (enumeration type re-using "
+                 "a literal, integer type, subprogram with an outer name) put into the inner block.  non-trivial = at least 4 design units; distinct by (request, rewrites, size)" % CH_LEN),
         "explanation": ("theorem half (Coq, Props/C05.v): the typing judgment is sound for the reference semantics, every "
                         "generated program is Valid for the reference, the rewrites preserve reference validity (closed "
                         "under composition).  exploration half (decisive for the implementation): the analyser "
